@@ -4,6 +4,10 @@
 //                           library code on the read path except the six blob decoders)
 //   v1.reupdate <trackvar>  update(snapshot()) and the snapshot after it (fixed point on real code)
 //   v1.rmperf <trackvar>    delete the PerformanceData row (a state Engine libraries can be in)
+//   v1.skewgrid <trackvar>  make the default beat grid differ from the adjusted one (what Engine does
+//                           when the user adjusts a grid): default := {} if the adjusted grid is not
+//                           empty, else {(0, 0.0), (4, 88200.0)}; the blob is re-encoded with the
+//                           library's own codec and written through the C API
 #include <optional>
 #include <string>
 #include <vector>
@@ -117,5 +121,36 @@ DJV_CMD(v1_rmperf, "v1.rmperf")
         sqlite3_free(err);
         throw bad_command{"rmperf"};
     }
+    return "";
+}
+
+DJV_CMD(v1_skewgrid, "v1.skewgrid")
+{
+    auto id = (long long)TR(a.at(1)).id();
+    auto* h = main_handle();
+    sqlite3_stmt* st = nullptr;
+    std::string sql = "SELECT beatData FROM PerformanceData WHERE id = " + std::to_string(id);
+    if (sqlite3_prepare_v2(h, sql.c_str(), -1, &st, nullptr) != SQLITE_OK) throw bad_command{"prepare"};
+    bool have = false;
+    std::vector<std::byte> blob;
+    if (sqlite3_step(st) == SQLITE_ROW)
+    {
+        have = true;
+        blob = blob_of(st, 0);
+    }
+    sqlite3_finalize(st);
+    if (!have) return "";
+    auto bd = ev1::beat_data::decode(blob);
+    if (bd.adjusted_beatgrid.empty())
+        bd.default_beatgrid = {djinterop::beatgrid_marker{0, 0.0}, djinterop::beatgrid_marker{4, 88200.0}};
+    else
+        bd.default_beatgrid.clear();
+    auto enc = bd.encode();
+    sql = "UPDATE PerformanceData SET beatData = ? WHERE id = " + std::to_string(id);
+    if (sqlite3_prepare_v2(h, sql.c_str(), -1, &st, nullptr) != SQLITE_OK) throw bad_command{"prepare"};
+    sqlite3_bind_blob(st, 1, enc.data(), (int)enc.size(), SQLITE_TRANSIENT);
+    int rc = sqlite3_step(st);
+    sqlite3_finalize(st);
+    if (rc != SQLITE_DONE) throw bad_command{"skewgrid"};
     return "";
 }
